@@ -429,12 +429,15 @@ public:
             throw std::logic_error("DoubleShiftQR: need to call compute() first");
 
         const Index nrow = Y.rows();
+        // Y may be a block of a larger matrix, so consecutive columns are
+        // outerStride() elements apart, not necessarily nrow
+        const Index stride = Y.outerStride();
         const Index n2 = m_n - 2;
         for (Index i = 0; i < n2; i++)
         {
-            apply_XP(Y.block(0, i, nrow, 3), nrow, i);
+            apply_XP(Y.block(0, i, nrow, 3), stride, i);
         }
-        apply_XP(Y.block(0, n2, nrow, 2), nrow, n2);
+        apply_XP(Y.block(0, n2, nrow, 2), stride, n2);
     }
 };
 
